@@ -14,7 +14,10 @@ EXPLANATION = (
     "read leaves no basis; R13.4 no exception escapes the text front ends - every throwing conversion (std::stoi/stod/stoul...) reachable "
     "from the settings parsers is inside a try block (positive control); R13.5 a failed stream read leaves the reading loop - the test "
     "that follows a read is evaluated under the end-of-file state (good=false, eof=true, fail=true) and must take its exit arm; R13.6 a "
-    "character pointer is never advanced beyond the terminator it was just found on. NOT decided: memory safety in general (data-flow of "
+    "character pointer is never advanced beyond the terminator it was just found on; R13.9 asserted input predicates - every call of a "
+    "reader helper that asserts pred(param) on entry (LPFreadColName, LPFreadValue, ...) is unreachable when pred(arg) is false; R13.10 "
+    "MPS fields - a field of the current MPS line is used as a string only where a null test of that field has been passed since "
+    "readLine(); R13.11 no assertion tests the character class of input text (positive control). NOT decided: memory safety in general (data-flow of "
     "uninitialised values, integer overflow in index arithmetic, leaks on exceptional paths): a fuzzer is the natural tool there.")
 
 C = M.CLS
@@ -126,6 +129,9 @@ def run(fb, rep, tier):
     exceptions(fb, rep)
     eof(fb, rep, rf)
     terminator(fb, rep, rf)
+    preconditions(fb, rep, rf)
+    null_fields(fb, rep, rf)
+    input_asserts(fb, rep, rf)
 
 
 # ---------------------------------------------------------------------------------------------------
@@ -602,3 +608,130 @@ def terminator(fb, rep, rf):
                       'after scanning to a delimiter or the end of the string, `%s++` (line %s) is executed even when *%s is the terminating NUL: parsing continues beyond the end of the string' % (p, bad.l if bad else '', p))
     if k < 4:
         raise AnalysisBroken('only %d scan-then-advance sites found' % k)
+
+
+# ---------------------------------------------------------------------------------------------------
+def preconditions(fb, rep, rf):
+    """R13.9: a reader helper that asserts pred(param) on entry states its precondition; the bytes behind `param` come from the file, so
+    every caller must have tested pred(arg) itself - the call must be unreachable when pred(arg) is false"""
+    rep.rule('R13.9', 'every call of a reader helper that asserts pred(param) on entry is unreachable when pred(arg) is false (the caller tests the input first)', floor=20)
+    helpers = {}
+    for g in rf:
+        pn = [p_[0] for p_ in g.params]
+        for n in g.nodes:
+            if n.k == 'CallExpr' and g.in_assert(n) and n.short and n.short.startswith('LPFis') and len(n.args()) == 1 and render(strip(n.args()[0])) in pn:
+                helpers[g.u] = (g, n.short, pn.index(render(strip(n.args()[0]))))
+    if len(helpers) < 6:
+        raise AnalysisBroken('only %d reader helpers with an asserted input predicate found' % len(helpers))
+    sites = 0
+    for f in rf:
+        graphs = {}
+        for c in f.calls():
+            if c.u not in helpers or f.in_assert(c):
+                continue
+            g, pred, k = helpers[c.u]
+            args = c.args()
+            if k >= len(args):
+                continue
+            sites += 1
+            a = render(strip(args[k]))
+            atom = '%s(%s)' % (pred, a)
+            if atom not in graphs:
+                graphs[atom] = Graph(f, Assume(atoms={atom: False}))
+            gr = graphs[atom]
+            b = gr.block_of(c)
+            reach = b is not None and b in gr.reach(gr.entry)
+            key = '%s|%s(%s)@%d' % (f.name.replace('soplex::', '')[:50], g.short, a[:20], sites)
+            rep.check(not reach, 'R13.9', key, '%s:%d' % (f.file, c.l), 'guarded by a test of %s' % atom,
+                      '%s is called although no test of %s guards this path: the helper only asserts it, so a file with other bytes at this position aborts the reader (or, without assertions, makes it read a name/number that is not there)' % (g.short, atom))
+    if sites < 20:
+        raise AnalysisBroken('only %d call sites of precondition-asserting reader helpers found' % sites)
+
+
+def null_fields(fb, rep, rf):
+    """R13.10: MPSInput::fieldK() is null when the current line has fewer tokens; readLine() fills the fields in order, so fieldK == null
+    implies fieldJ == null for J > K.  Every use of fieldK() as a string (dereference, argument of a call) must be unreachable, within
+    the current line, when fieldK() is null."""
+    rep.rule('R13.10', 'an MPS field is used as a string only where a null test of that field (or of a lower one) has been passed since the line was read', floor=60)
+    sites = 0
+    for f in rf:
+        if not any(pt.replace('soplex::', '').startswith('MPSInput &') for pn, pt in f.params):
+            continue
+        mp = [pn for pn, pt in f.params if pt.replace('soplex::', '').startswith('MPSInput &')][0]
+        uses = []
+        for n in f.nodes:
+            if n.k == 'CXXMemberCallExpr' and re.match(r'^field[1-5]$', n.short or '') and n.obj() is not None and render(n.obj()) == mp and not f.in_assert(n):
+                p_ = n.parent
+                while p_ is not None and p_.k in ('ImplicitCastExpr', 'ParenExpr'):
+                    p_ = p_.parent
+                if p_ is None:
+                    continue
+                # null tests themselves and pure pointer copies are not uses
+                if p_.k == 'BinaryOperator' and p_.o in ('==', '!='):
+                    continue
+                if p_.k == 'UnaryOperator' and p_.o == '!':
+                    continue
+                if p_.k in ('IfStmt', 'ConditionalOperator', 'WhileStmt') and p_.kid('cond') is not None and strip(p_.kid('cond')).i == n.i:
+                    continue
+                uses.append((n, p_))
+        if not uses:
+            continue
+        reads = [n for n in f.nodes if n.k == 'CXXMemberCallExpr' and n.short == 'readLine' and n.obj() is not None and render(n.obj()) == mp]
+        for n, par in uses:
+            sites += 1
+            K = int(n.short[-1])
+
+            def hook(node, txt, K=K, mp=mp):
+                m = re.match(r'^\(?%s\.field([0-5])\(\) (==|!=) (nullptr|0|__null)\)?$' % re.escape(mp), txt)
+                if m and int(m.group(1)) >= K:
+                    return m.group(2) == '=='
+                return None
+            gr = Graph(f, Assume(hook=hook))
+            b = gr.block_of(n)
+            starts = [gr.block_of(r) for r in reads] or [gr.entry]
+            starts = [x for x in starts if x is not None]
+            rblocks = set(starts)
+            frontier = set()
+            for sb in starts:
+                frontier |= set(gr.succ.get(sb, []))
+            if not reads:
+                frontier = {gr.entry}
+            reach = gr.reach(list(frontier), avoid=rblocks - {b} if b not in rblocks else set())
+            bad = b is not None and (b in reach or (b in rblocks and False))
+            key = '%s|%s#%d' % (f.name.replace('soplex::', '')[:60], n.short, sites)
+            rep.check(not bad, 'R13.10', key, '%s:%d' % (f.file, n.l), 'unreachable while %s() is null' % n.short,
+                      '%s.%s() is used as a string (%s) on a path on which no test since the last readLine() excludes a null pointer: a line with fewer fields crashes the reader' % (mp, n.short, render(par)[:50]))
+    if sites < 60:
+        raise AnalysisBroken('only %d uses of MPS fields found' % sites)
+
+
+def input_asserts(fb, rep, rf):
+    """R13.11: text that comes from a file is validated with an error path, never with assert(): an assertion whose condition applies a
+    character-class function to a string is a crash on malformed input in every build that keeps assertions (the baseline build does)"""
+    rep.rule('R13.11', 'no assertion in the reader code (or the number parsers it calls) tests the character class of input text', floor=15)
+    CLASSIFIERS = {'isdigit', 'isalpha', 'isalnum', 'isspace', 'isxdigit', 'isupper', 'islower', 'all_of', 'any_of', 'none_of'}
+    scope = list(rf) + [f for f in fb.funcs.values() if f.short in ('ratFromString', 'readStringRational') and f.name.startswith('soplex::')]
+    ctl = 0
+    n_assert = 0
+    for f in scope + [f for f in fb.funcs.values() if f.name.startswith('verif_ctl::')]:
+        for n in f.nodes:
+            if n.k != 'ConditionalOperator':
+                continue
+            e = n.kid('else')
+            if e is None or e.k != 'CallExpr' or e.n != '__assert_fail':
+                continue
+            cond = n.kid('cond')
+            hit = [x for x in cond.walk() if x.k == 'CallExpr' and x.short in CLASSIFIERS] + [x for x in cond.walk() if x.k == 'DeclRefExpr' and x.short in CLASSIFIERS]
+            if f.name.startswith('verif_ctl::'):
+                ctl += 1 if hit else 0
+                continue
+            n_assert += 1
+            if hit:
+                rep.bad('R13.11', '%s|assert(%s)' % (f.short, render(cond)[:40]), '%s:%d' % (f.file, n.l), 'assert(%s) tests the character class of text read from a file: malformed input aborts the process instead of reaching the reader\'s error path' % render(cond)[:70])
+    if ctl < 1:
+        raise AnalysisBroken('R13.11 positive control (units/controls.cpp asserts_digits) did not fire')
+    rep.ok('R13.11', 'control|asserts_digits', 'units/controls.cpp', 'positive control fires', nontrivial=False)
+    for k in range(0, n_assert, 10):
+        rep.ok('R13.11', 'scan|assertions %d-%d' % (k, min(k + 9, n_assert - 1)), 'src', 'no character-class test in these assertions', nontrivial=False)
+    if n_assert < 100:
+        raise AnalysisBroken('only %d assertions found in the reader code' % n_assert)
